@@ -35,19 +35,18 @@ type workItem struct {
 	Res  memResult `json:"res"`
 }
 
-// worker mode: run the mem cases of a file sequentially, write results
+// worker mode: run the mem cases of a file sequentially, write one result line per case (flushed at once,
+// so that the parent knows which case crashed the process)
 func workerMain(in string) {
 	cases := hx.ReadCases[Case](in)
 	out, err := os.Create(in + ".out")
 	if err != nil {
 		panic(err)
 	}
-	w := bufio.NewWriterSize(out, 1<<20)
-	enc := json.NewEncoder(w)
+	enc := json.NewEncoder(out)
 	for _, c := range cases {
 		enc.Encode(workItem{Case: c, Res: safeMemCase(c)})
 	}
-	w.Flush()
 	out.Close()
 }
 
@@ -55,18 +54,25 @@ func workerMain(in string) {
 func safeMemCase(c Case) (res memResult) {
 	defer func() {
 		if r := recover(); r != nil {
-			res = memResult{Coq: fmt.Sprintf("CaseMem %s [] [mkStep (SCancel 0) (mkObs [] [] [] [])]", hx.N(c.ID)),
-				Counts: map[string]int{}, Other: []string{fmt.Sprintf("panic in a storage method: %v", r)}}
+			res = memResult{Coq: crashedTerm(c.ID), Counts: map[string]int{}, Other: []string{fmt.Sprintf("panic in a storage method: %v", r)}}
 		}
 	}()
 	return runMemCase(c)
 }
 
-// runMemCases distributes the cases over worker processes and returns the results by case id
-func runMemCases(fl *hx.Flags, cases []Case) map[uint64]memResult {
+// a term that can never be accepted (cancel of a call that does not exist)
+func crashedTerm(id uint64) string {
+	return fmt.Sprintf("CaseMem %s [] [mkStep (SCancel 0) (mkObs [] [] [] [])]", hx.N(id))
+}
+
+// runMemCases distributes the cases over worker processes and returns the results by case id. A worker
+// that dies (fatal error, deadlock detected by the runtime, unrecovered panic of a waiter goroutine) is
+// restarted behind the case it died in; that case is reported as crashed.
+func runMemCases(fl *hx.Flags, cases []Case) (map[uint64]memResult, map[uint64]string) {
 	res := map[uint64]memResult{}
+	crashed := map[uint64]string{}
 	if len(cases) == 0 {
-		return res
+		return res, crashed
 	}
 	nw := runtime.NumCPU()
 	if nw > 16 {
@@ -75,58 +81,89 @@ func runMemCases(fl *hx.Flags, cases []Case) map[uint64]memResult {
 	if nw > len(cases) {
 		nw = len(cases)
 	}
-	files := make([]string, nw)
-	ws := make([]*bufio.Writer, nw)
-	fhs := make([]*os.File, nw)
-	for i := range files {
-		files[i] = filepath.Join(fl.Out, fmt.Sprintf("work_%02d.jsonl", i))
-		fh, err := os.Create(files[i])
-		if err != nil {
-			panic(err)
-		}
-		fhs[i] = fh
-		ws[i] = bufio.NewWriter(fh)
-	}
+	parts := make([][]Case, nw)
 	for i, c := range cases {
-		b, _ := json.Marshal(c)
-		ws[i%nw].Write(b)
-		ws[i%nw].WriteByte('\n')
-	}
-	for i := range files {
-		ws[i].Flush()
-		fhs[i].Close()
+		parts[i%nw] = append(parts[i%nw], c)
 	}
 	self, err := os.Executable()
 	if err != nil {
 		panic(err)
 	}
+	var mu sync.Mutex
 	var wg sync.WaitGroup
-	errs := make([]error, nw)
-	outs := make([][]byte, nw)
-	for i := range files {
+	for i := range parts {
 		wg.Add(1)
 		go func(i int) {
 			defer wg.Done()
-			cmd := exec.Command(self, "--worker", files[i], "--out", fl.Out)
-			cmd.Env = append(os.Environ(), "GOMAXPROCS=4")
-			outs[i], errs[i] = cmd.CombinedOutput()
+			remaining := parts[i]
+			file := filepath.Join(fl.Out, fmt.Sprintf("work_%02d.jsonl", i))
+			for restarts := 0; len(remaining) > 0 && restarts < 25; restarts++ {
+				fh, err := os.Create(file)
+				if err != nil {
+					panic(err)
+				}
+				w := bufio.NewWriter(fh)
+				for _, c := range remaining {
+					b, _ := json.Marshal(c)
+					w.Write(b)
+					w.WriteByte('\n')
+				}
+				w.Flush()
+				fh.Close()
+				cmd := exec.Command(self, "--worker", file, "--out", fl.Out)
+				cmd.Env = append(os.Environ(), "GOMAXPROCS=4")
+				out, runErr := cmd.CombinedOutput()
+				n := 0
+				if _, err := os.Stat(file + ".out"); err == nil {
+					items := readItems(file + ".out")
+					mu.Lock()
+					for _, it := range items {
+						res[it.Case.ID] = it.Res
+					}
+					mu.Unlock()
+					n = len(items)
+				}
+				os.Remove(file)
+				os.Remove(file + ".out")
+				if n >= len(remaining) {
+					break
+				}
+				mu.Lock()
+				crashed[remaining[n].ID] = fmt.Sprintf("%v\n%s", runErr, head(out, 1500))
+				mu.Unlock()
+				remaining = remaining[n+1:]
+			}
 		}(i)
 	}
 	wg.Wait()
-	for i, f := range files {
-		if errs[i] != nil {
-			// a crashed worker (fatal error, unrecovered panic in the implementation) is an observation
-			fmt.Fprintf(os.Stderr, "worker %d failed: %v\n%s\n", i, errs[i], tail(outs[i], 3000))
+	return res, crashed
+}
+
+// readItems reads the result lines a worker managed to write (the last one may be cut off)
+func readItems(path string) []workItem {
+	fh, err := os.Open(path)
+	if err != nil {
+		return nil
+	}
+	defer fh.Close()
+	var res []workItem
+	sc := bufio.NewScanner(fh)
+	sc.Buffer(make([]byte, 1<<20), 1<<28)
+	for sc.Scan() {
+		var it workItem
+		if json.Unmarshal(sc.Bytes(), &it) != nil {
+			break
 		}
-		if _, err := os.Stat(f + ".out"); err == nil {
-			for _, it := range hx.ReadCases[workItem](f + ".out") {
-				res[it.Case.ID] = it.Res
-			}
-		}
-		os.Remove(f)
-		os.Remove(f + ".out")
+		res = append(res, it)
 	}
 	return res
+}
+
+func head(b []byte, n int) string {
+	if len(b) > n {
+		b = b[:n]
+	}
+	return string(b)
 }
 
 func tail(b []byte, n int) string {
@@ -219,7 +256,7 @@ func main() {
 	var wg sync.WaitGroup
 	wg.Add(1)
 	go func() { defer wg.Done(); pollRes = runPollCases(cases) }()
-	memRes := runMemCases(fl, mem)
+	memRes, crashed := runMemCases(fl, mem)
 	wg.Wait()
 
 	dropped, retries := 0, 0
@@ -228,8 +265,12 @@ func main() {
 		case "mem":
 			r, ok := memRes[c.ID]
 			if !ok {
-				s.DirectViolation(c.ID, "the implementation crashed the worker process while running this script (or one before it)", nil)
-				s.Add(c, fmt.Sprintf("CaseMem %s [] [mkStep (SCancel 0) (mkObs [] [] [] [])]", hx.N(c.ID)), false)
+				if why, cr := crashed[c.ID]; cr {
+					s.DirectViolation(c.ID, "the implementation crashed the process while running this script (fatal error / deadlock / panic)", why)
+					s.Add(c, crashedTerm(c.ID), false)
+				} else {
+					s.Count("not-run-after-too-many-crashes")
+				}
 				continue
 			}
 			retries += r.Retries
